@@ -195,6 +195,30 @@ bool File::isEOF()
 	return valid && feof(stream);
 }
 
+// Check that at least len more bytes can be read from the file
+bool File::canRead(unsigned long len)
+{
+	if (!valid) return false;
+
+	long pos = ftell(stream);
+
+	if (pos < 0) return false;
+
+#ifndef _WIN32
+	struct stat s;
+
+	if (fstat(fileno(stream), &s) != 0) return false;
+#else
+	struct _stat s;
+
+	if (_fstat(_fileno(stream), &s) != 0) return false;
+#endif
+
+	if (s.st_size < pos) return false;
+
+	return (len <= (unsigned long) (s.st_size - pos));
+}
+
 // Read an unsigned long value; warning: not thread safe without locking!
 bool File::readULong(unsigned long& value)
 {
@@ -223,6 +247,12 @@ bool File::readByteString(ByteString& value)
 	unsigned long len;
 
 	if (!readULong(len))
+	{
+		return false;
+	}
+
+	// Refuse a length that the file cannot hold (corrupt file)
+	if (!canRead(len))
 	{
 		return false;
 	}
@@ -268,6 +298,9 @@ bool File::readMechanismTypeSet(std::set<CK_MECHANISM_TYPE>& value)
 
 	unsigned long count;
 	if (!readULong(count)) return false;
+
+	// Refuse a count that the file cannot hold (corrupt file)
+	if (count > (((unsigned long) -1) / 8) || !canRead(count * 8)) return false;
 
 	for (unsigned long i = 0; i < count; i++)
 	{
@@ -407,6 +440,12 @@ bool File::readString(std::string& value)
 	unsigned long len;
 
 	if (!readULong(len))
+	{
+		return false;
+	}
+
+	// Refuse a length that the file cannot hold (corrupt file)
+	if (!canRead(len))
 	{
 		return false;
 	}
